@@ -6,7 +6,9 @@ from props import qcommon as qc
 
 class Grammar(qc.FullGrammar):
     allow_main = True
+    allow_retarget = True
     pool_template = True
+    thread_kinds = qc.FullGrammar.thread_kinds + [("retarget", 1)]
 
 
 class Check(E3Check):
@@ -14,7 +16,7 @@ class Check(E3Check):
     asan_share = 6
     rule = ("Hypothesis recipe -> sound client program over a generated queue graph (1-6 custom serial/concurrent queues and workloops chained through target "
             "queues, three global queues), 1-4 threads issuing all six submission APIs in block and _f form, awaits (ping-pong), nested submissions from items, "
-            "balanced suspend/resume, an 'async must not wait' template (the submitting thread holds the only key to a gate blocking the queue) and a pool-exhaustion "
+            "balanced suspend/resume, run-time retargeting of busy legacy leaf queues (dispatch_set_target_queue between fixed candidate targets), an 'async must not wait' template (the submitting thread holds the only key to a gate blocking the queue) and a pool-exhaustion "
             "template (active_cpus<=2: every pool thread blocks in an item waiting for a later item of the same global queue), run under harness-owned schedules. "
             "Non-trivial: some queue flipped empty->non-empty >= 3 times under submission from >= 2 threads, or a synchronous call began while another item of the "
             "same hierarchy was running (waiter path), or the pool-exhaustion template ran; distinct = distinct program texts.")
